@@ -65,6 +65,8 @@ def evaluate(plan, ctx):
     if plan.get("binarized"):
         ev.append("thompson_binarizer")
     ev.append("data=" + plan.get("data_container", "list"))
+    if any(b.get("pre") for b in plan["bandits"]):
+        ev.append("bandit_used_before_the_simulation")
     metrics = set()
     replaced = False
     for b, (name, ca), (_, cb) in zip(plan["bandits"], copies_a, copies_b):
